@@ -34,6 +34,7 @@ import (
 	"time"
 
 	"github.com/fxamacker/cbor/v2"
+	"golang.org/x/net/html"
 )
 
 // ---------------------------------------------------------------- time budget of an escalated run
@@ -438,4 +439,95 @@ func c18StoredStage(env *verifEnv, res *verifResult, routes []verifRoute, everyw
 			}
 		}
 	}
+}
+
+// ---------------------------------------------------------------- attribute reads of PARTS of a request text
+// A wrapped probe whose inner payload starts with the marker word: every attribute of the served document whose raw
+// value CONTAINS the marker gives a case (quoting, inner payload, raw bytes of the tag from the marker on, behind
+// the opening quote when there is one).  Model: wherever a rendering of the payload (hand escaper or one of the
+// library's) stands in an attribute value, the tokenizer's value does not end inside it (Props/C18.v
+// c18_part_quoted_inert, c18_quoted_value, c18_unquoted_value); a case on which it does is the defect itself.
+type c18PartCases struct {
+	cases, idx []string
+	seen       map[string]bool
+}
+
+func (pc *c18PartCases) collect(res *verifResult, via string, body []byte, inner, wrapper, sent string) {
+	if !strings.HasPrefix(inner, c18Marker) || !bytes.Contains(body, []byte(c18Marker)) {
+		return
+	}
+	z := html.NewTokenizer(bytes.NewReader(body))
+	for {
+		tt := z.Next()
+		if tt == html.ErrorToken {
+			return
+		}
+		if tt != html.StartTagToken && tt != html.SelfClosingTagToken {
+			continue
+		}
+		raw := append([]byte{}, z.Raw()...)
+		if !bytes.Contains(raw, []byte(c18Marker)) {
+			continue
+		}
+		tn, _ := z.TagName()
+		for _, a := range c18TagAttrs(raw) {
+			v := a.tail
+			var open []byte
+			if a.q != 1 && len(v) > 0 {
+				open, v = v[:1], v[1:]
+			}
+			// the value as the tokenizer delimits it at most: up to the end of the tag for an unquoted value, up to
+			// the closing quote otherwise - the marker must stand inside THIS attribute
+			limit := len(v)
+			if a.q != 1 {
+				if j := bytes.IndexByte(v, open[0]); j >= 0 {
+					limit = j
+				}
+			} else {
+				for j := 0; j < len(v); j++ {
+					if c18IsBlank(v[j]) || v[j] == '>' {
+						limit = j
+						break
+					}
+				}
+			}
+			i := bytes.Index(v[:limit], []byte(c18Marker))
+			if i < 0 {
+				continue
+			}
+			tail := append(append([]byte{}, open...), v[i:]...)
+			if len(tail) > 400 {
+				tail = tail[:400]
+			}
+			k := fmt.Sprintf("%d|%s|%s", a.q, inner, tail)
+			if pc.seen == nil {
+				pc.seen = map[string]bool{}
+			}
+			if pc.seen[k] {
+				continue
+			}
+			pc.seen[k] = true
+			pc.cases = append(pc.cases, fmt.Sprintf("(%d, %s, %s)", a.q, coqPacked([]byte(inner)), coqPacked(tail)))
+			pc.idx = append(pc.idx, fmt.Sprintf("via=%s request-text=%q wrapper=%s element=%s attribute=%s quoting=%s inner-text=%q bytes-from-the-text-on=%q", via, sent, wrapper, string(tn), a.name, []string{"double", "unquoted", "single"}[a.q], inner, c18Truncate(string(tail), 160)))
+			res.bump("part_attribute_reads:" + []string{"double-quoted", "unquoted", "single-quoted"}[a.q])
+		}
+	}
+}
+
+func (pc *c18PartCases) coq() string {
+	var sb strings.Builder
+	sb.WriteString("(* (quoting as served, inner payload of a wrapped request text, raw bytes of the tag from the payload's first word on - behind the opening quote if any) *)\n")
+	sb.WriteString("Definition pcases : list (N * bs * bs) := [\n " + strings.Join(pc.cases, ";\n ") + "].\n")
+	sb.WriteString(`(* the value the tokenizer reads from here ends INSIDE a rendering of the payload *)
+Definition pviolates (c : N * bs * bs) : bool :=
+  let '(_, s, tail) := c in
+  existsb (fun E => prefix_b (E s) (a_after_open tail) && (N.of_nat (length (attr_read tail)) <? N.of_nat (length (E s)))) a_escapers.
+Definition c18_part_mismatches := Eval vm_compute in mismatches pviolates pcases.
+Print c18_part_mismatches.
+Definition c18_part_violating := Eval vm_compute in mismatches pviolates pcases.
+Print c18_part_violating.
+Definition c18_npcases := Eval vm_compute in length pcases.
+Print c18_npcases.
+`)
+	return sb.String()
 }
